@@ -247,44 +247,69 @@ def judge(verdict, cov, origin, trace_path, cases_by_no, drifts):
 
 
 # ------------------------------------------------------------------------------------------------
-def design_checks(tier, verdict, cov):
-    for name in DESIGN[tier]:
-        cfg = name + ".cfg"
-        res = vlib.tlc_mc("MC_Framing.tla", cfg, workers=8, timeout=1500)
-        cov["states"] += res["distinct"]
-        cov["transitions"] += res["generated"]
-        cov["mc"].append(dict(config=cfg, kind="design check (toy sizes, exhaustive)", distinct=res["distinct"], generated=res["generated"],
-                              depth=res["depth"], complete=res["left"] == 0, wall_s=res["wall_s"]))
-        log(f"[tlc] {cfg}: {res['distinct']} distinct states, {res['generated']} generated, {res['wall_s']}s")
-        if not res["ok"]:
-            verdict.violation(f"design check {cfg}: {res['violation']}", dict(kind="tlc-mc", config=cfg, module="MC_Framing.tla", output_tail=res["raw"][-6000:]))
+def design_job(name):
+    cfg = name + ".cfg"
+    return ("design", cfg, vlib.tlc_mc("MC_Framing.tla", cfg, workers=4, timeout=1500))
 
 
-def generate_and_replay(tier, seed, verdict, cov, drifts, samples):
+def generator_job(d, g, tier, seed):
+    """TLC enumerates the behaviours of one generator; the driver replays them on the real code (twice: all
+    cases, keeping the traces of those that differ; and a sample with all traces for the observer)."""
+    name = write_generator(d, g)
+    res = run_tlc(d, name + ".tla", name + ".cfg", os.path.join(d, name + ".out"), workers=4, timeout=2400)
+    if not res["ok"]:
+        return ("gen", g, name, res, None, None, None, None)
+    cases = parse_cases(res.pop("case_lines"))
+    if not cases:
+        raise vlib.ToolError(f"generator {g['name']} produced no case")
+    case_file = os.path.join(d, name + ".cases")
+    with open(case_file, "w") as f:
+        f.write("\n".join(cases) + "\n")
+    trace = os.path.join(d, name + ".real.ndjson")
+    summ = driver(["replay", "--cases", case_file, "--traces", trace])
+    if "hang" in summ:
+        h = summ["hang"]
+        with open(trace, "w") as f:
+            f.write("\n".join(json.dumps(r) for r in h["real"]) + "\n")
+        with open(trace + ".idx", "w") as f:
+            f.write(json.dumps(dict(case=h["case"], first_record=1, records=len(h["real"]), first_mismatch=len(h["real"]) - 1, stopped="hang")) + "\n")
+        summ = dict(cases=h["case"] + 1, events=0, mismatching_cases=1, nontrivial_cases=0)
+        return ("gen", g, name, res, cases, summ, trace, None)
+    # cross-check of the fast path: a sample of the cases is judged by the observer whether or not it agrees
+    step = max(1, len(cases) // (150 if tier == "quick" else 1200))
+    sample_file = os.path.join(d, name + ".sample.cases")
+    with open(sample_file, "w") as f:
+        f.write("\n".join(cases[(seed + g["max_calls"]) % step::step]) + "\n")
+    strace = os.path.join(d, name + ".sample.ndjson")
+    s2 = driver(["replay", "--cases", sample_file, "--traces", strace, "--all-traces"])
+    return ("gen", g, name, res, cases, summ, trace, strace if "hang" not in s2 else None)
+
+
+def model_check_and_replay(tier, seed, verdict, cov, drifts, samples):
+    from concurrent.futures import ThreadPoolExecutor
     d = gen_dir()
-    for g in generators(tier, seed):
-        name = write_generator(d, g)
-        res = run_tlc(d, name + ".tla", name + ".cfg", os.path.join(d, name + ".out"), workers=8, timeout=2400)
+    sample_traces = []
+    with ThreadPoolExecutor(max_workers=3) as pool:
+        futs = [pool.submit(generator_job, d, g, tier, seed) for g in generators(tier, seed)]
+        futs += [pool.submit(design_job, name) for name in DESIGN[tier]]
+        results = [f.result() for f in futs]
+    for r in results:
+        if r[0] == "design":
+            _, cfg, res = r
+            cov["states"] += res["distinct"]
+            cov["transitions"] += res["generated"]
+            cov["mc"].append(dict(config=cfg, kind="design check (toy sizes, exhaustive)", distinct=res["distinct"], generated=res["generated"],
+                                  depth=res["depth"], complete=res["left"] == 0, wall_s=res["wall_s"]))
+            log(f"[tlc] {cfg}: {res['distinct']} distinct states, {res['generated']} generated, {res['wall_s']}s")
+            if not res["ok"]:
+                verdict.violation(f"design check {cfg}: {res['violation']}", dict(kind="tlc-mc", config=cfg, module="MC_Framing.tla", output_tail=res["raw"][-6000:]))
+            continue
+        _, g, name, res, cases, summ, trace, strace = r
         cov["states"] += res["distinct"]
         cov["transitions"] += res["generated"]
         if not res["ok"]:
             verdict.violation(f"generator {g['name']}: {res['violation']}", dict(kind="tlc-gen", generator=g, output_tail=res["tail"]))
             continue
-        cases = parse_cases(res.pop("case_lines"))
-        case_file = os.path.join(d, name + ".cases")
-        with open(case_file, "w") as f:
-            f.write("\n".join(cases) + ("\n" if cases else ""))
-        if not cases:
-            raise vlib.ToolError(f"generator {g['name']} produced no case")
-        trace = os.path.join(d, name + ".real.ndjson")
-        summ = driver(["replay", "--cases", case_file, "--traces", trace])
-        if "hang" in summ:
-            h = summ["hang"]
-            with open(trace, "w") as f:
-                f.write("\n".join(json.dumps(r) for r in h["real"]) + "\n")
-            with open(trace + ".idx", "w") as f:
-                f.write(json.dumps(dict(case=h["case"], first_record=1, records=len(h["real"]), first_mismatch=len(h["real"]) - 1, stopped="hang")) + "\n")
-            summ = dict(cases=h["case"] + 1, events=0, mismatching_cases=1, nontrivial_cases=0)
         cov["mc"].append(dict(config=name + ".cfg", kind="case generator (real constants, exhaustive within its bounds)", distinct=res["distinct"],
                               generated=res["generated"], complete=res["left"] == 0, wall_s=res["wall_s"], cases=len(cases),
                               replayed=summ["cases"], differing=summ["mismatching_cases"]))
@@ -299,23 +324,37 @@ def generate_and_replay(tier, seed, verdict, cov, drifts, samples):
             cov[k] = sorted(set(cov[k]) | set(summ.get(k, [])))
         cov["single_byte_feeds"] += summ.get("single_byte_feeds", 0)
         cov["panics"] += summ.get("panics", 0)
-        if len(samples) < 6:
+        if len(samples) < 8:
             samples.append(dict(generator=g["name"], case=json.loads(cases[len(cases) // 2])))
         if summ["mismatching_cases"]:
             judge(verdict, cov, g["name"], trace, lambda no, cases=cases: json.loads(cases[no]) if 0 <= no < len(cases) else None, drifts)
-        # cross-check of the fast path: a sample of the cases that agree is judged by the observer too
-        step = max(1, len(cases) // (150 if tier == "quick" else 1500))
-        sample_file = os.path.join(d, name + ".sample.cases")
-        with open(sample_file, "w") as f:
-            f.write("\n".join(cases[(seed + g["max_calls"]) % step::step]) + "\n")
-        strace = os.path.join(d, name + ".sample.ndjson")
-        s2 = driver(["replay", "--cases", sample_file, "--traces", strace, "--all-traces"])
-        if "hang" not in s2:
-            n = judge(verdict, cov, g["name"] + " (sample)", strace, lambda no: None, [])
-            cov["traces_validated"] += n
+        if strace:
+            sample_traces.append((g["name"], strace))
+    return sample_traces
 
 
-def random_behaviours(tier, seed, verdict, cov, drifts, samples):
+def merge_traces(parts, out):
+    """Concatenates traces (each with its .idx) into one file, so that one TLC run judges them all."""
+    n = 0
+    with open(out, "w") as f, open(out + ".idx", "w") as fi:
+        for (origin, path) in parts:
+            k = 0
+            for line in open(path):
+                if line.strip():
+                    f.write(line)
+                    k += 1
+            for e in read_idx(path):
+                e["first_record"] += n
+                e["origin"] = origin
+                e["first_mismatch"] = None      # differences were handled where they arose
+                fi.write(json.dumps(e) + "\n")
+            n += k
+    return n
+
+
+def random_behaviours(tier, seed, verdict, cov, drifts, samples, sample_traces):
+    """Seeded open-loop behaviours on the real code; every one of them, and the sampled TLC cases, are judged by
+    the observer in one TLC run."""
     d = vlib.workdir("framing/random")
     count = 400 if tier == "quick" else 6000
     trace = os.path.join(d, f"random-{seed}.ndjson")
@@ -325,26 +364,37 @@ def random_behaviours(tier, seed, verdict, cov, drifts, samples):
         h = summ["hang"]
         verdict.violation("the code under test did not return", dict(kind="random", driver_args=[str(a) for a in args], case=dict(ev=h["real"][:-1]), real_trace=h["real"]))
         return
-    recs = vlib.read_ndjson(trace)
-    idx = read_idx(trace)
+    merged = os.path.join(d, f"merged-{seed}.ndjson")
+    merge_traces([(f"random seed {seed}", trace)] + sample_traces, merged)
+    recs = None
 
-    def case_no(no):
-        for e in idx:
-            if e["case"] == no:
-                return dict(ev=recs[e["first_record"] - 1:e["first_record"] - 1 + e["records"]])
+    def case_no(no_unused):
         return None
-    n = judge(verdict, cov, f"random seed {seed}", trace, case_no, drifts)
-    cov["random_cases"] += n
-    cov["traces_validated"] += n
+    viol, nrec = observe(merged)
+    cov["records_validated"] += nrec
+    idx = read_idx(merged)
+    if viol:
+        recs = vlib.read_ndjson(merged)
+    for (rec, why) in viol:
+        e = case_of_record(idx, rec)
+        real = recs[e["first_record"] - 1:e["first_record"] - 1 + e["records"]] if e else []
+        verdict.violation(why, dict(kind="case", origin=e.get("origin") if e else "?", case=dict(ev=real), real_trace=real,
+                                    violated_at_event=rec - e["first_record"] if e else None))
+    nrand = sum(1 for e in idx if e.get("origin", "").startswith("random"))
+    cov["random_cases"] += nrand
+    cov["traces_validated"] += len(idx)
     cov["nontrivial"] += summ.get("nontrivial_cases", 0)
     cov["bytes_fed"] += summ.get("bytes_fed", 0)
     cov["bytes_written"] += summ.get("bytes_written", 0)
     cov["random_frame_sizes"] = len(summ.get("frame_sizes", []))
     cov["panics"] += summ.get("panics", 0)
-    log(f"[random] {n} seeded open-loop behaviours on the real code ({summ.get('events', 0)} events, {summ.get('bytes_fed', 0)} bytes fed, "
-        f"{len(summ.get('frame_sizes', []))} distinct frame sizes), all judged by the observer")
-    if idx:
-        samples.append(dict(generator="random", case=case_no(idx[len(idx) // 3]["case"])))
+    log(f"[random] {nrand} seeded open-loop behaviours on the real code ({summ.get('events', 0)} events, {summ.get('bytes_fed', 0)} bytes fed, "
+        f"{len(summ.get('frame_sizes', []))} distinct frame sizes); observer judged {len(idx)} behaviours / {nrec} records (random + sampled TLC cases)")
+    rand = [e for e in idx if e.get("origin", "").startswith("random")]
+    if rand:
+        all_recs = recs if recs is not None else vlib.read_ndjson(merged)
+        e = rand[len(rand) // 3]
+        samples.append(dict(generator="random", case=dict(ev=all_recs[e["first_record"] - 1:e["first_record"] - 1 + e["records"]])))
 
 
 def selftest(seed, cov):
@@ -406,9 +456,8 @@ def run(prop, tier, seed):
     samples = []
     build()
     selftest(seed, cov)
-    design_checks(tier, verdict, cov)
-    generate_and_replay(tier, seed, verdict, cov, drifts, samples)
-    random_behaviours(tier, seed, verdict, cov, drifts, samples)
+    sample_traces = model_check_and_replay(tier, seed, verdict, cov, drifts, samples)
+    random_behaviours(tier, seed, verdict, cov, drifts, samples, sample_traces)
     finish(prop, tier, seed, verdict, cov, drifts, samples, t0)
     return verdict
 
